@@ -47,6 +47,11 @@ class Pattern(Serialize, ABC):
     def __repr__(self):
         return repr(self.to_regexp())
 
+    def _deserialize(self):
+        # serialization turns the frozenset into a list; restore it so that
+        # flag comparisons (e.g. `<=` in _create_unless) keep meaning "subset"
+        self.flags = frozenset(self.flags)
+
     # Pattern Hashing assumes all subclasses have a different priority!
     def __hash__(self):
         return hash((type(self), self.value, self.flags))
